@@ -197,8 +197,19 @@ func genCase(r *kit.Rand, idx int, tier string) []string {
 			doWrite(n)
 		case k < 76:
 			id := kit.Pick(r, ids)
+			if running[id] != nil && r.Chance(1, 6) {
+				// StartTask of an id that is executing (same or another definition): must be refused, nothing changes
+				d := defs[id]
+				if r.Bool() {
+					d = genTask(r, id, names, focus)
+				}
+				if len(d.dbrps) > 0 {
+					ops = append(ops, startLine(d))
+					continue
+				}
+			}
 			if running[id] != nil {
-				// never start an executing id (the task store stops first): stop, maybe write, start again
+				// the task store's way: stop, maybe write, start again
 				ops = append(ops, "stop "+kit.Esc(id))
 				delete(running, id)
 				if r.Bool() {
